@@ -45,6 +45,7 @@ type KnownFinding struct {
 	Obligation string
 	Class      string
 	What       string
+	Cases      string // for a finding of a bounded stand-in (obligation "bounded:<name>"): file listing the failing cases that are known
 	Line       string
 }
 
@@ -83,6 +84,8 @@ func loadKnown(path string) []KnownFinding {
 				k.Class = v
 			case "what":
 				k.What = v
+			case "cases":
+				k.Cases = v
 			}
 		}
 		out = append(out, k)
@@ -356,7 +359,19 @@ func cmdCheck(args []string) int {
 			cmd := exec.Command(b.Cmd[0], b.Cmd[1:]...)
 			cmd.Dir = *verifDir
 			cmd.Env = os.Environ()
+			// a recorded finding of a bounded stand-in is identified by its failing cases: the stand-in is told which
+			// cases are known, fails on any other failing case, and says so when only the known ones fail
+			var bk *KnownFinding
+			for i := range known {
+				if known[i].Kind == "finding" && known[i].Property == cfg.ID && strings.HasPrefix(known[i].Obligation, "bounded:") && known[i].Cases != "" {
+					bk = &known[i]
+					cmd.Env = append(cmd.Env, "VERIF_KNOWN_CASES="+filepath.Join(*verifDir, known[i].Cases))
+				}
+			}
 			outB, err := cmd.CombinedOutput()
+			if err == nil && bk != nil && strings.Contains(string(outB), "REPLAY KNOWN-FINDING") {
+				knownHits = append(knownHits, fmt.Sprintf("KNOWN-FINDING: property=%s %s (bounded stand-in %q, cases listed in %s)", cfg.ID, bk.What, b.Name, bk.Cases))
+			}
 			res := "held on everything explored"
 			if err != nil {
 				res = "FAILED"
